@@ -28,6 +28,21 @@ CHECKS = {
          "The product capability(3) x residentKey(5 shapes) x requireResidentKey(2) x credProps(3) at client level and capability(3) x rk(2) at CTAP2 level is finite and enumerated completely; each configuration registers and then asserts with the new credential; the rk option seen by the store, the stored user handle, credProps.rk and the assertion's userHandle are compared with the specification table typed into the harness.",
          "Harness store with configurable capability; nothing demanded for credProps false/absent.",
          "DESIGN.md §2 C11"),
+ "C05": ("model_checking",
+         "complete enumeration of store contents x lists x RPs x listing orders on the real Authenticator over the contract store, and of the shipped stores' find_credentials against the documented contract",
+         "With a universe of four credentials (two RPs, equal user handles across RPs) all 16 store contents, three RPs, absent/empty/sub-list allow and exclude lists (incl. unknown ids and ids of the other RP) and both listing orders are run through get_assertion and make_credential; the credential that signs / the refusal is compared with the contract model. The same inputs are given to find_credentials of MemoryStore, Option<Passkey> and their four lock wrappers and compared with the contract set; wrappers are compared with the store they wrap.",
+         "Outcomes are demanded, not the arguments the store receives; three RP-blindness discrepancies of the shipped stores are known findings (KNOWN_FINDINGS.txt).",
+         "DESIGN.md §2 C05"),
+ "C06": ("exploration",
+         "bounded-exhaustive enumeration of ceremonies x configurations with an output monitor searching every returned value for the stored secrets in raw/hex/decimal/base64 forms",
+         "Every operation kind at every API level (WebAuthn, CTAP2, U2F, getInfo, error paths) under every hmac-secret configuration, PRF request shape, verification outcome, client-data mode and counter setting is executed; all secrets then present in the store are searched in every serialisation and Debug rendering of everything handed back, and the attested COSE key is checked for public labels only. Exhaustive over that finite product; a per-case negative control proves the scanner can find a secret in each form.",
+         "Secrets are those read back from the store after the ceremony; base64 search uses the alignment-independent core of the encoding.",
+         "DESIGN.md §2 C06"),
+ "C09": ("model_checking",
+         "complete enumeration of authenticator configurations x ceremony x verification x credential secrets x PRF input shapes on the real Client/Authenticator; results recomputed with hmac/sha2 from the secrets read back from the store",
+         "The product of configurations and input shapes named in the property (about 47k quick / 109k thorough ceremonies) is enumerated completely; each PRF result must equal HMAC-SHA-256(admissible secret, specified salt), per-credential entries must win, enabled must match stored secrets, incapable authenticators must produce nothing, and malformed requests must be rejected before any authenticator or store call (checked through the call log).",
+         "Second results are checked when present, never demanded; results at creation are not demanded; error codes are not compared.",
+         "DESIGN.md §2 C09"),
  "C08": ("model_checking",
          "explicit-state BFS over the real get_assertion/make_credential with history replay, deduplicated on the counter vector",
          "All histories of assertions (with and without extension requests) and registrations up to the depth bound from 49 start vectors covering 0, 1, 2^31-1, 2^31, 2^32-2, 2^32-1 and counter-less credentials are executed on the real authenticator; every transition is checked against the counter invariants (previous+1 = reported = stored, counter-less never rewritten, no wrap and no panic at the maximum).",
